@@ -293,7 +293,10 @@ class TheoryOracle(walkers.DagWalker):
         return theory_out
 
     def walk_pow(self, formula: FNode, args: List[Theory], **kwargs) -> Theory:
-        return args[0].set_linear(False)
+        theory_out = args[0].set_linear(False)
+        # Pow has type Real, also when the base is an integer
+        theory_out.real_arithmetic = True
+        return theory_out
 
     def walk_plus(self, formula: FNode, args: List[Theory], **kwargs) -> Theory:
         theory_out = args[0]
